@@ -14,7 +14,8 @@ EXPLANATION = (
     "write_header in the order (qd, an, ns, ar) and are reset after a continuation split; (d) TC is set on the header "
     "written inside the loop and not on the last; (e) send_to for DNS data is called only by multicast_on_intf / "
     "unicast_on_intf behind the `len > MAX_MSG_ABSOLUTE ⇒ return` guard; (f) fullname derives from "
-    "escape_instance_name(my_name).")
+    "escape_instance_name(my_name)."
+    " The rollback is exact: data is truncated at the snapshot and a compression entry survives iff its offset is strictly below it.")
 UNDECIDED = ["value round trip: decoded names/RDATA equal what was added (escaping, compression pointers pointing at the right bytes)",
              "non-injective compression key for labels containing '.' (a\\.b vs a.b)",
              "answers/authorities that do not fit are dropped while later smaller records still enter the packet",
